@@ -615,6 +615,7 @@ Proof. intros Hn. induction 1 as [|o t Ho Ht IH]; cbn [fill_empty]; [constructor
 Lemma config_service_zref ss nm ty : Forall zref ss -> Forall zref (config_service ss nm ty).
 Proof.
   intros H. unfold config_service. apply retype_zref. destruct (find_name ss nm); [exact H|].
+  destruct (free_index ss <? max_slots)%nat; [|exact H].
   destruct (has_empty ss); [apply fill_empty_zref; [reflexivity|exact H]|].
   apply Forall_app. split; [exact H|repeat constructor].
 Qed.
